@@ -36,6 +36,7 @@ import (
 	govv1beta1 "github.com/cosmos/cosmos-sdk/x/gov/types/v1beta1"
 	sdkvesting "github.com/cosmos/cosmos-sdk/x/auth/vesting/types"
 	"github.com/cosmos/cosmos-sdk/x/authz"
+	paramproposal "github.com/cosmos/cosmos-sdk/x/params/types/proposal"
 	"github.com/cosmos/cosmos-sdk/x/feegrant"
 	transfertypes "github.com/cosmos/ibc-go/v7/modules/apps/transfer/types"
 	clienttypes "github.com/cosmos/ibc-go/v7/modules/core/02-client/types"
@@ -409,8 +410,36 @@ func chainTx(n *Node, contracts *[]common.Address, t M) ([]byte, error) {
 		a := sdk.NewCoins(coin(str(t, "amt")))
 		lock := sdkvesting.Periods{{Length: num(t, "lock", 300), Amount: a}}
 		vest := sdkvesting.Periods{{Length: num(t, "vest", 5), Amount: a}}
-		return cosmos(900000, vestingtypes.NewMsgConvertIntoVestingAccount(from.Addr, w.Acct(str(t, "to")).Addr, n.Time.Add(time.Duration(num(t, "startOff", 0))*time.Second), lock, vest,
+		toAddr := w.Acct(str(t, "to")).Addr
+		if strings.HasPrefix(str(t, "to"), "next:") {
+			// the address of the contract that account X will create next: a vesting account that later owns code
+			c := w.Acct(strings.TrimPrefix(str(t, "to"), "next:"))
+			toAddr = sdk.AccAddress(ethcrypto.CreateAddress(ethAddr(c), n.App.EvmKeeper.GetNonce(n.Ctx(), ethAddr(c))).Bytes())
+		}
+		return cosmos(900000, vestingtypes.NewMsgConvertIntoVestingAccount(from.Addr, toAddr, n.Time.Add(time.Duration(num(t, "startOff", 0))*time.Second), lock, vest,
 			t["merge"] == true, t["stake"] == true, val()))
+	case "dao_scatter":
+		// one transaction that gives n fresh accounts a DAO share (collections with more entries than a page)
+		var msgs []sdk.Msg
+		cnt := int(num(t, "n", 120))
+		for i := 0; i < cnt; i++ {
+			to := DetKey(w.Cfg.Seed, fmt.Sprintf("dao-holder-%d-%d", num(t, "salt", 0), i))
+			msgs = append(msgs, ucdaotypes.NewMsgTransferOwnershipWithAmount(from.Addr, to.Addr, sdk.NewCoins(coin(str(t, "amt")))))
+		}
+		return cosmos(uint64(200000+90000*cnt), msgs...)
+	case "gov_coinomics":
+		// legacy parameter-change proposal switching coinomics off or on
+		v := "false"
+		if t["enable"] == true {
+			v = "true"
+		}
+		content := paramproposal.NewParameterChangeProposal("c", "d", []paramproposal.ParamChange{
+			paramproposal.NewParamChange(coinomicstypes.ModuleName, "ParamStoreKeyEnableCoinomics", v)})
+		msg, err := govv1beta1.NewMsgSubmitProposal(content, sdk.NewCoins(coin("5000")), from.Addr)
+		if err != nil {
+			return nil, err
+		}
+		return cosmos(500000, msg)
 	case "bad_nonce":
 		// a transaction that the ante handler rejects (stale sequence): exercises the failure path
 		acc := n.App.AccountKeeper.GetAccount(n.Ctx(), from.Addr)
@@ -450,7 +479,18 @@ func flatten(prefix string, v any, out map[string]string) {
 
 // exportImport: export -> InitChain of a fresh app -> Commit -> export again; returns the
 // per-module flattened documents of both exports.
-func (n *Node) exportImport() (M, error) {
+func (n *Node) exportImport() (res M, err error) {
+	// an export or InitChain that panics is a failed export/import cycle (a verdict), not a harness failure
+	defer func() {
+		if r := recover(); r != nil {
+			msg := fmt.Sprint(r)
+			if len(msg) > 300 {
+				msg = msg[:300]
+			}
+			res, err = nil, fmt.Errorf("panic: %s", msg)
+			n.imported = nil
+		}
+	}()
 	exp, err := n.App.ExportAppStateAndValidators(false, nil, nil)
 	if err != nil {
 		return nil, err
